@@ -89,6 +89,8 @@ def callers(w, p, q, owner, former):
         for a in pr.assets:
             if a[0] == "t":
                 cs.append(("assettoken_of_pair%d" % i, a[1]))
+    if getattr(w, "proxy", None):
+        cs.append(("attacker_proxy", w.proxy))
     others = [t for t in w.tokens if t not in p.assets and t not in q.assets]
     if others:
         cs.append(("foreign_token", others[0][1]))
@@ -122,6 +124,11 @@ def do_cell(acc, w, phase, role, caller, target, name, msg, auth, owner, via="di
         acc.count("cells_authorised_skipped")
         return None
     op = {"kind": "matrix", "actor": caller, "contract": target, "msg": msg, "funds": sorted(funds or []), "sem": {"cell": name, "role": role}}
+    if role == "attacker_proxy":
+        # the attacker has its contract send the message (the target sees the contract as the caller)
+        op = {"kind": "matrix", "actor": "attacker", "contract": caller, "msg": {"forward": {"contract": target, "msg": msg}},
+              "funds": [], "sem": {"cell": name, "role": role}}
+        via = "proxy"
     st = w.step(op)
     acc.ev()
     acc.cls(phase, name, role, via + ("+funds" if funds else ""), "auth" if ok_auth else "unauth", st.res["r"])
@@ -257,6 +264,11 @@ def run_world(acc, srv, key):
     for _ in range(rng.randrange(20, 70)):
         op, q = g.next()
         w.step(op, q)
+    # a contract the attacker deployed: it forwards any message in its own name and answers every query by relaying it to the
+    # factory (it can describe itself as the factory does)
+    w.proxy = w._inst("proxy", "attacker", {"target": w.factory})
+    w.extra_accounts = list(w.extra_accounts) + [w.proxy]
+    w.retrack()
     owner, former = "owner", None
     for phase in ("before_transfer", "after_transfer"):
         p, q_ = rng.sample(w.pairs, 2)
@@ -308,6 +320,37 @@ def run_world(acc, srv, key):
             for _ in range(rng.randrange(0, 15)):
                 op, q = g.next()
                 w.step(op, q)
+    # ownership handed along a chain that passes through the system's own contracts (the factory itself among them):
+    # it must follow EVERY successful update, and each former owner must be locked out at once
+    chain = [w.router, p.lp, w.factory, p.addr, w.tokens[0][1], rng.choice(["lp1", "trader1"])]
+    rng.shuffle(chain)
+    for new_owner in chain:
+        if new_owner == owner:
+            continue
+        st = w.step({"kind": "matrix", "actor": owner, "contract": w.factory,
+                     "msg": {"update_config": {"owner": new_owner, "token_code_id": None, "pair_code_id": None}},
+                     "funds": [], "sem": {"cell": "ownership_chain"}})
+        acc.ev()
+        role = "factory" if new_owner == w.factory else ("contract" if new_owner.startswith("contract") else "account")
+        acc.cls("ownership_chain", role, st.res["r"])
+        if not st.ok:
+            acc.count("positive_control_failed:ownership_chain")
+            break
+        acc.count("ownership_chain_hops")
+        cfg = w.q(w.factory, {"config": {}})
+        if cfg["r"] != "ok" or cfg["v"]["owner"] != new_owner:
+            acc.violation("ownership did not follow a successful configuration update naming %s (%s): config says %r"
+                          % (new_owner, role, cfg.get("v")), monitors.case_of(w, st))
+            break
+        former, owner = owner, new_owner
+        st2 = w.step({"kind": "matrix", "actor": former, "contract": w.factory,
+                      "msg": {"update_config": {"owner": former, "token_code_id": None, "pair_code_id": None}},
+                      "funds": [], "sem": {"cell": "former_owner_after_chain_hop"}})
+        acc.ev()
+        if st2.ok:
+            acc.violation("factory.update_config accepted from the former owner %s right after ownership went to %s" % (former, new_owner),
+                          monitors.case_of(w, st2))
+            break
     acc.count("worlds")
 
 
@@ -349,6 +392,7 @@ def floors(acc, tier):
         msgs.append("positive controls failed: %s" % bad)
     _w.need(acc, msgs, "positive_control_ok", 200)
     _w.need(acc, msgs, "ownership_transfers", 16)
+    _w.need(acc, msgs, "ownership_chain_hops", 100)
     names = set(k.split("|")[1] for k in acc.classes)
     want = {"factory.update_config", "factory.create_pair", "factory.add_native_token_decimals", "factory.migrate_pair",
             "pair.update_native_token_decimals", "pair.receive_withdraw", "pair.receive_swap",
